@@ -510,8 +510,26 @@ def _verify(contract, index, schema_mod, fs, res):
     res.engine = eng
 
 
+def term_mentions(t, consts):
+    ids = {c.get_id() for c in consts}
+    seen, todo = set(), [t]
+    while todo:
+        x = todo.pop()
+        if x.get_id() in seen:
+            continue
+        seen.add(x.get_id())
+        if x.get_id() in ids:
+            return True
+        todo.extend(x.children())
+    return False
+
+
 def contract_handler(c):
-    """Call-site use of a contract: check requires, havoc the frame, assume ensures (modular verification)."""
+    """Call-site use of a contract: check requires, havoc the frame, assume ensures (modular verification).
+
+    Pure calls (empty frame) are represented by an uninterpreted function of the SMT arguments whose name carries the
+    heap signature: the same call denotes the same value everywhere, also under quantifiers, where the contract
+    is assumed universally over the variables bound by the enclosing quantifiers."""
     def h(eng, st, recv, args, kwargs, node):
         names = list(c.params)
         vals = ([recv] if (recv is not None and not isinstance(recv, VClass)) else []) + list(args)
@@ -529,74 +547,90 @@ def contract_handler(c):
                     frame[n] = k
                 else:
                     raise Untranslatable(f"call of {c.name} by contract: missing argument {n}", node)
-        pure = (c.frame == [])
-        memo_key = None
+        pure = (c.frame == []) and isinstance(c.result_kind, Kind)
+        memo_key, result, bvs = None, None, []
         if pure:
-            try:
-                memo_key = (c.name, tuple(v.term.get_id() if isinstance(v, V) else repr(v) for v in frame.values()), st.heap_sig())
-            except Exception:
-                memo_key = None
-            if memo_key is not None and memo_key in st.memo:
-                # same arguments and heap as an earlier normal return on this path: same result, no exception
-                yield st, st.memo[memo_key]
+            smt_args = [v for v in frame.values() if isinstance(v, V)]
+            other = tuple(repr(v) for v in frame.values() if not isinstance(v, V))
+            sig = st.heap_sig()
+            fname = f"fn!{c.name}!{abs(hash((sig, other))) % (10 ** 12)}"
+            fn = z3.Function(fname, *[a.term.sort() for a in smt_args], c.result_kind.sort()) if smt_args else None
+            rterm = fn(*[a.term for a in smt_args]) if fn is not None else z3.Const(fname, c.result_kind.sort())
+            result = V(c.result_kind, rterm)
+            bvs = [(b, g) for b, g in eng.bound_stack if any(term_mentions(a.term, [b]) for a in smt_args)]
+            memo_key = (fname, tuple(a.term.get_id() for a in smt_args))
+            if memo_key in st.memo:
+                yield st, result
                 return
         st.frames.append(frame)
-        try:
-            for i, r in enumerate(c.requires):
-                t = eng.ev_merged(parse_expr(r), st, want_bool=True)
-                if eng.no_prune:
-                    continue      # spec evaluation: preconditions of pure getters are the spec writer's duty
-                eng.oblige(st, f"call.{c.name}.requires{i}", t.term, node, kind="pre")
-            pre = st.copy()
-            outcomes = [(st, None)]
-            for exc, when in c.raises.items():
-                nxt = []
-                for stx, _ in outcomes:
-                    if when is None:
-                        cond = fresh(BOOL, "mayraise").term
-                    else:
-                        cond = eng.ev_merged(parse_expr(when), stx, want_bool=True).term
-                    for sty, b in eng.fork(stx, cond, f"call.{c.name}.raises.{exc}"):
-                        if b:
-                            sty.frames.pop()
-                            eng.raise_exc(sty, exc, node)
-                        else:
-                            nxt.append((sty, None))
-                outcomes = nxt
-            for stx, _ in outcomes:
-                for f in (c.frame or []):
-                    owner, field = f.split(".")
-                    _, kind = eng.field_kind(owner, field)
-                    if kind is not None and kind.smt:
-                        stx.heap[f] = z3.Const(fresh_name("H_" + f), z3.ArraySort(RefSort, kind.sort()))
-                        stx.writes.add(f)
-                if c.result_kind is None:
-                    result = NONE
-                elif isinstance(c.result_kind, Kind):
-                    if memo_key is not None:
-                        # pure call: the result is a function of (arguments, heap) -> deterministic name, so the
-                        # same call denotes the same value on every path and in every spec evaluation
-                        h = abs(hash(memo_key)) % (10 ** 12)
-                        result = V(c.result_kind, z3.Const(f"res!{c.name.split('.')[-1]}!{h}", c.result_kind.sort()))
-                    else:
-                        result = fresh(c.result_kind, "res_" + c.name.split(".")[-1])
-                else:
-                    result = c.result_kind
-                stx.locals["result"] = result
+        if bvs:
+            # quantified context: assume the whole contract universally over the bound variables
+            try:
+                reqs = [eng.ev_merged(parse_expr(r), st, want_bool=True).term for r in c.requires]
+                st.locals["result"] = result
                 saved = eng.entry_state
-                eng.entry_state = pre
+                eng.entry_state = st.copy()
                 try:
-                    for ename, expr in c.ensures:
-                        t = eng.ev_merged(parse_expr(expr), stx, want_bool=True)
-                        stx.assume(t.term)
+                    ens = [eng.ev_merged(parse_expr(expr), st, want_bool=True).term for _, expr in c.ensures]
                 finally:
                     eng.entry_state = saved
-                stx.frames.pop()
-                if memo_key is not None:
-                    stx.memo[memo_key] = result
-                yield stx, result
-        finally:
-            pass
+                guards = [g for _, g in bvs]
+                fact = z3.ForAll([b for b, _ in bvs], z3.Implies(z3.And(guards + reqs), z3.And(ens) if ens else z3.BoolVal(True)))
+                st.assume(fact)
+                st.memo[memo_key] = result
+            finally:
+                st.frames.pop()
+            yield st, result
+            return
+        for i, r in enumerate(c.requires):
+            t = eng.ev_merged(parse_expr(r), st, want_bool=True)
+            if eng.no_prune:
+                continue      # spec evaluation: preconditions of pure getters are the spec writer's duty
+            eng.oblige(st, f"call.{c.name}.requires{i}", t.term, node, kind="pre")
+        pre = st.copy()
+        outcomes = [(st, None)]
+        for exc, when in c.raises.items():
+            nxt = []
+            for stx, _ in outcomes:
+                if when is None:
+                    cond = fresh(BOOL, "mayraise").term
+                else:
+                    cond = eng.ev_merged(parse_expr(when), stx, want_bool=True).term
+                for sty, b in eng.fork(stx, cond, f"call.{c.name}.raises.{exc}"):
+                    if b:
+                        sty.frames.pop()
+                        eng.raise_exc(sty, exc, node)
+                    else:
+                        nxt.append((sty, None))
+            outcomes = nxt
+        for stx, _ in outcomes:
+            for f in (c.frame or []):
+                owner, field = f.split(".")
+                _, kind = eng.field_kind(owner, field)
+                if kind is not None and kind.smt:
+                    stx.heap[f] = z3.Const(fresh_name("H_" + f), z3.ArraySort(RefSort, kind.sort()))
+                    stx.writes.add(f)
+            if result is not None:
+                res = result
+            elif c.result_kind is None:
+                res = NONE
+            elif isinstance(c.result_kind, Kind):
+                res = fresh(c.result_kind, "res_" + c.name.split(".")[-1])
+            else:
+                res = c.result_kind
+            stx.locals["result"] = res
+            saved = eng.entry_state
+            eng.entry_state = pre
+            try:
+                for ename, expr in c.ensures:
+                    t = eng.ev_merged(parse_expr(expr), stx, want_bool=True)
+                    stx.assume(t.term)
+            finally:
+                eng.entry_state = saved
+            stx.frames.pop()
+            if memo_key is not None:
+                stx.memo[memo_key] = res
+            yield stx, res
     h.contract = c
     return h
 
